@@ -1074,6 +1074,8 @@ class VBSClusteringManager:
 
     def _standalone_operation_container(self, now: float) -> Optional[dict]:
         """Build operation container for STANDALONE state (lock held)."""
+        container: dict = {}
+
         if self._join_substate is _JoinSubstate.NOTIFY:
             # Include clusterJoinInfo
             elapsed = now - (self._join_started or now)
@@ -1083,35 +1085,30 @@ class VBSClusteringManager:
             )
             # joinTime is DeltaTimeQuarterSecond (0..127, units 0.25 s)
             join_time = min(127, int(remaining_s / 0.25))
-            return {
-                "clusterJoinInfo": {
-                    "clusterId": self._join_target_cluster_id or 0,
-                    "joinTime": join_time,
-                }
+            container["clusterJoinInfo"] = {
+                "clusterId": self._join_target_cluster_id or 0,
+                "joinTime": join_time,
             }
 
         if self._join_substate in (_JoinSubstate.CANCELLED, _JoinSubstate.FAILED):
-            return {
-                "clusterLeaveInfo": {
-                    "clusterId": self._join_target_cluster_id or 0,
-                    "clusterLeaveReason": (
-                        self._join_leave_reason or ClusterLeaveReason.NOT_PROVIDED
-                    ).value,
-                }
+            container["clusterLeaveInfo"] = {
+                "clusterId": self._join_target_cluster_id or 0,
+                "clusterLeaveReason": (
+                    self._join_leave_reason or ClusterLeaveReason.NOT_PROVIDED
+                ).value,
+            }
+        elif self._leave_substate is _LeaveSubstate.NOTIFY:
+            # Leave notification from prior cluster membership.  It runs for its
+            # full timeClusterLeaveNotification even when a new join has been
+            # announced meanwhile (the container carries both).
+            container["clusterLeaveInfo"] = {
+                "clusterId": self._leave_cluster_id or 0,
+                "clusterLeaveReason": (
+                    self._leave_reason or ClusterLeaveReason.NOT_PROVIDED
+                ).value,
             }
 
-        # Leave notification from prior cluster membership
-        if self._leave_substate is _LeaveSubstate.NOTIFY:
-            return {
-                "clusterLeaveInfo": {
-                    "clusterId": self._leave_cluster_id or 0,
-                    "clusterLeaveReason": (
-                        self._leave_reason or ClusterLeaveReason.NOT_PROVIDED
-                    ).value,
-                }
-            }
-
-        return None
+        return container or None
 
     def _passive_operation_container(self, now: float) -> Optional[dict]:
         """Build operation container for PASSIVE state (lock held)."""
